@@ -843,6 +843,115 @@ def body_eigvec(case, ctx):
                       TP[idx] - lam * v, tol + 2e-9 * lmax * nv * (q == "near"))
 
 
+@st.composite
+def eig_complex_case(draw):
+    """complex transformations (and real ones with non-real eigenvalues), single and composite"""
+    n = draw(st.integers(1, 3))
+    N = n + 1
+    shape = draw(st.sampled_from([[], [], [1], [2], [2, 2]]))
+    kind = draw(st.sampled_from(["complex", "complex", "real-rotation"]))
+    trs = []
+    for _ in range(gen.prod(shape)):
+        if kind == "complex":
+            # distinct complex eigenvalues r e^{i phi}, moduli 1.3^k pairwise different
+            ks = draw(st.lists(st.integers(-3, 3), min_size=N, max_size=N, unique=True))
+            lam = [[1.3 ** k * math.cos(ph), 1.3 ** k * math.sin(ph)]
+                   for k, ph in zip(ks, [draw(fl(-3.0, 3.0)) for _ in range(N)])]
+            trs.append(dict(S=draw(generic_complex_matrix(N)), lam=lam))
+        else:
+            th = draw(fl(0.3, 2.8))
+            trs.append(dict(theta=th, scale=draw(st.sampled_from([1.0, 2.0, 0.5])),
+                            S=draw(gen.wellcond_matrix(N, maxfactor=2.0))))
+    return dict(n=n, shape=shape, kind=kind, trs=trs, which=draw(st.integers(0, N - 1)),
+                cv=draw(st.booleans()))
+
+
+def body_eig_complex(case, ctx):
+    n, shape, kind = case["n"], tuple(case["shape"]), case["kind"]
+    N = n + 1
+    mats, lams = [], []
+    for tr in case["trs"]:
+        if kind == "complex":
+            S = np.array([[complex(*z) for z in row] for row in tr["S"]])
+            lam = np.array([complex(*z) for z in tr["lam"]])
+        else:
+            S = np.array(tr["S"], dtype=float)
+            th, sc = tr["theta"], tr["scale"]
+            lam = np.array([sc * np.exp(1j * th), sc * np.exp(-1j * th)] +
+                           [1.7 ** (k + 1) for k in range(N - 2)])
+            # real matrix with the rotation block: S R S^-1
+        if kind == "complex":
+            C = S @ np.diag(lam) @ np.linalg.inv(S)
+        else:
+            R = np.zeros((N, N))
+            R[:2, :2] = tr["scale"] * np.array([[math.cos(th), -math.sin(th)],
+                                                [math.sin(th), math.cos(th)]])
+            for k in range(N - 2):
+                R[2 + k, 2 + k] = 1.7 ** (k + 1)
+            C = S @ R @ np.linalg.inv(S)
+        mats.append(C)
+        lams.append(lam)
+    ctx.label("n=%d" % n, "rank=%d" % len(shape), "kind=" + kind,
+              "composite" if shape else "single", "n>=2" if n >= 2 else "")
+    C = np.array(mats).reshape(shape + (N, N))
+    if case["cv"]:
+        T = projective.Transformation(C.copy(), column_vectors=True)
+    else:
+        T = projective.Transformation(np.ascontiguousarray(C.swapaxes(-1, -2)))
+    # the queried eigenvalue: one of transformation 0 (all transformations of a complex case
+    # are given it too); for the rotation case e^{i theta} scale of transformation 0
+    q = lams[0][case["which"] % N]
+    if kind == "complex":
+        for t in range(1, len(mats)):
+            lam = lams[t].copy()
+            lam[0] = q
+            S = np.array([[complex(*z) for z in row] for row in case["trs"][t]["S"]])
+            mats[t] = S @ np.diag(lam) @ np.linalg.inv(S)
+            lams[t] = lam
+        C = np.array(mats).reshape(shape + (N, N))
+        T = projective.Transformation(C.copy(), column_vectors=True)
+    present = [bool(np.any(np.abs(l - q) < 1e-9 * abs(q))) for l in lams]
+    if not all(present):
+        ctx.label("absent-in-some-unit")
+    try:
+        Pt = T.eigenvector(complex(q))
+    except GeometryError:
+        ctx.check(not shape and not present[0], "eigenvector() raised GeometryError although "
+                  "the (complex) eigenvalue is present", q=q)
+        return
+    V = np.asarray(Pt.proj_data)
+    ctx.check(V.shape == shape + (N,), "eigenvector data shape", got=V.shape)
+    for t, idx in enumerate(np.ndindex(*shape)):
+        v = V[idx]
+        if not present[t]:
+            continue
+        cond = float(np.linalg.cond(np.asarray(mats[t]))) + 1.0
+        nv = float(np.linalg.norm(v))
+        ctx.check(nv > 1e-8 and np.all(np.isfinite(v)), "non-degenerate eigenvector", v=v)
+        lmax = float(np.max(np.abs(lams[t])))
+        ctx.small("T v = lambda v for a complex eigenvalue / complex transformation",
+                  (mats[t] @ v - q * v) / (1e-10 * cond * lmax * nv), 1.0, unit=t, q=q)
+    # the diagonalising frame, through the library's own action
+    M = T.diagonalize()
+    D = np.asarray((M.inv() @ T @ M).matrix)
+    for t, idx in enumerate(np.ndindex(*shape)):
+        d = D[idx]
+        cond = float(np.linalg.cond(np.asarray(mats[t]))) + 1.0
+        off = d - np.diag(np.diag(d))
+        ctx.small("M.inv() @ T @ M is diagonal (complex spectrum)", off,
+                  1e-9 * cond ** 2 * float(np.max(np.abs(lams[t]))))
+        # as multisets (sorting complex numbers whose real parts agree to rounding is not
+        # stable): every eigenvalue is matched by a different diagonal entry
+        got = list(np.diag(d))
+        worst = 0.0
+        for lam_k in lams[t]:
+            j = int(np.argmin([abs(g - lam_k) for g in got]))
+            worst = max(worst, abs(got[j] - lam_k))
+            got.pop(j)
+        ctx.small("its diagonal is the complex spectrum (as a multiset)", worst,
+                  1e-8 * cond ** 2 * float(np.max(np.abs(lams[t]))))
+
+
 def _nt_eig(labels):
     return _nt(labels) or "n=2" in labels
 
@@ -910,6 +1019,8 @@ LAWS = [
     Law("intersect", intersect_case(), body_intersect, _nt, quick=150, thorough=800,
         shards=(2, 6)),
     Law("intersect_complex", intersect_complex_case(), body_intersect_complex, lambda l: True,
+        quick=150, thorough=800, shards=(1, 3)),
+    Law("eigenvector_complex", eig_complex_case(), body_eig_complex, lambda l: "n>=2" in l,
         quick=150, thorough=800, shards=(1, 3)),
     Law("eigenvector", eigvec_case(), body_eigvec, _nt_eig, quick=150, thorough=800,
         shards=(2, 6)),
